@@ -67,8 +67,8 @@ class Parser:
         self.tokens = tokens
         self.builtins = builtins
         self.pos = 0
-        assert tokens
-        self.eof = Token(TokenKind.EOI, "", -1, tokens[-1].grammar)
+        grammar = tokens[-1].grammar if tokens else ""
+        self.eof = Token(TokenKind.EOI, "", len(grammar), grammar)
 
     def current(self) -> Token:
         try:
@@ -117,6 +117,10 @@ class Parser:
             while self.current().kind == TokenKind.RULE_DOC:
                 self.pos += 1
                 rule_doc.append(self.eat(TokenKind.COMMENT_TEXT).value)
+
+            if self.current().kind == TokenKind.EOI:
+                # Trailing doc comments.
+                break
 
             identifier = self.eat(TokenKind.IDENTIFIER)
             self.eat(TokenKind.ASSIGN_OP)
@@ -248,26 +252,23 @@ class Parser:
         raise PestGrammarSyntaxError(f"unexpected operator {kind}", token=token)
 
     def parse_postfix_expression(self, expr: Expression) -> Expression:
-        token = self.current()
-        kind = token.kind
+        while True:
+            kind = self.current().kind
 
-        if kind == TokenKind.OPTION_OP:
-            self.pos += 1
-            return Optional(expr)
-
-        if kind == TokenKind.REPEAT_OP:
-            self.pos += 1
-            return Repeat(expr)
-
-        if kind == TokenKind.REPEAT_ONCE_OP:
-            self.pos += 1
-            return RepeatOnce(expr)
-
-        if kind == TokenKind.LBRACE:
-            self.pos += 1
-            return self.parse_repeat_expression(expr)
-
-        return expr
+            if kind == TokenKind.OPTION_OP:
+                self.pos += 1
+                expr = Optional(expr)
+            elif kind == TokenKind.REPEAT_OP:
+                self.pos += 1
+                expr = Repeat(expr)
+            elif kind == TokenKind.REPEAT_ONCE_OP:
+                self.pos += 1
+                expr = RepeatOnce(expr)
+            elif kind == TokenKind.LBRACE:
+                self.pos += 1
+                expr = self.parse_repeat_expression(expr)
+            else:
+                return expr
 
     def parse_repeat_expression(self, expr: Expression) -> Expression:
         token = self.next()
